@@ -12,7 +12,7 @@ from .effects import Effects
 from .lin import Lin, Sym
 from .rules_C16 import CACHE_KINDS, check_counter, classify
 from .shared_state import (int_constants, keyed_memo_key_mismatch, CacheInfo, SharedWrite, World, history_definite, recognise_cache, recognise_global_memo, recognise_slot_memo,
-                           value_dependencies, write_is_definite, stale_slot_read)
+                           value_dependencies, write_is_definite, stale_slot_read, generic_setter)
 
 
 # ---------------------------------------------------------------------------------
@@ -360,6 +360,10 @@ def check_cache_key(ctx, w: World, om: OriginModel, ci: CacheInfo, name: str, wh
         fn = w.model.funcs[ci.func].node
         dep, local_dep = value_dependencies(w.model, ci)
         extra = dep - ci.key_vars
+        if extra and generic_setter(w.model, ci.func, set(ci.key_vars), set(extra)):
+            ctx.unk("C17.2", f"cache {name}: key and value are both handed in by the caller of {ci.func}", where,
+                    "whether the key determines the value is a property of the call sites: not decided")
+            return
         if extra:
             ctx.bad("C17.2", f"cache {name}: the cached value depends on {sorted(extra)}, which is not part of the key", where,
                     f"key `{core.src(ci.key_expr)}` computed from {sorted(ci.key_vars)}: a later call with a different {sorted(extra)[0]} gets the value of an earlier one")
@@ -456,6 +460,10 @@ def check_shared_writes(ctx, w: World, om: OriginModel) -> None:
             if ci.variant != "?":
                 dep, _ = value_dependencies(w.model, ci)
                 extra = dep - ci.key_vars
+                if extra and generic_setter(w.model, stores[0].origin_func, set(ci.key_vars), set(extra)):
+                    _unk("C17.2", f"table {obj}: key and value are both handed in by the caller of {stores[0].origin_func}", where,
+                         "whether the key determines the value is a property of the call sites: not decided")
+                    continue
                 if extra:
                     _bad("C17.2", f"table {obj}: the stored value depends on {sorted(extra)}, which is not part of the key `{core.src(ci.key_expr)}`", where,
                             f"filled by {stores[0].origin_func}; a later call with a different {sorted(extra)[0]} and the same key gets the value of an earlier one")
